@@ -134,9 +134,10 @@ def canon_group(osy, g):
         m = g[key]
         if isinstance(m, osy.Vector):
             comps = [(c, col_values(a), str(a.dtype), ucat.unit_sym(osy, a.unit)) for c, a in m._xyz.items()]
-            out.append({"key": key, "kind": "vec", "comps": comps, "name": m.name})
+            out.append({"key": key, "kind": "vec", "comps": comps, "name": m.name, "shapes": [tuple(a.shape) for a in m._xyz.values()]})
         else:
-            out.append({"key": key, "kind": "arr", "comps": [("", col_values(m), str(m.dtype), ucat.unit_sym(osy, m.unit))], "name": m.name})
+            out.append({"key": key, "kind": "arr", "comps": [("", col_values(m), str(m.dtype), ucat.unit_sym(osy, m.unit))], "name": m.name,
+                        "shapes": [tuple(m.shape)]})
     return out
 
 
@@ -202,6 +203,9 @@ def compare_sink(out, impl_groups, model, exact, sink_on=True):
         return None if "sink" not in impl_groups else "a sink group was returned although there is no sink file (or sinks were switched off)"
     if "sink" not in impl_groups:
         return "sink group missing"
+    si = shape_issue(impl_groups, "sink")
+    if si:
+        return si
     cols = [(k, v) for k, v, _ in want]
     syms = {k: sym for k, _, sym in want}
     layout = expected_layout(cols, model.get("sink_merges", []))
@@ -231,6 +235,15 @@ def pending_factor(out, pend):
     if pend["sqrt4pi"]:
         f *= math.sqrt(4.0 * math.pi)
     return f
+
+
+def shape_issue(groups, name):
+    """every variable of a loaded group is a table column: one entry per row, i.e. a 1-D array (also for a single row)"""
+    for m in groups.get(name, []):
+        for sh in m.get("shapes", []):
+            if len(sh) != 1:
+                return f"{name}[{m['key']}] has shape {sh}: not a column with one entry per row"
+    return None
 
 
 def flatten_impl(groups, name):
@@ -279,6 +292,9 @@ def compare_group(out, impl_groups, name, model, exact, derived=("B_field", "mas
     mcols = [(k, v) for k, v in model[name]]
     merges = model.get(name + "_merges", [])
     scale = {s["name"]: s for s in model[name + "_scale"]}
+    si = shape_issue(impl_groups, name)
+    if si:
+        return si
     icols, iorder = flatten_impl(impl_groups, name)
     layout = expected_layout(mcols, merges)
     # derived variables are checked separately
@@ -318,6 +334,9 @@ def rows_multiset(cols_in_order):
 def compare_spec(out, impl_groups, name, spec, exact):
     """impl rows as a multiset vs the Spec rows (both over the Spec's scalar columns)."""
     scols = [(k, [Fraction(x) for x in v]) for k, v in spec[name]]
+    si = shape_issue(impl_groups, name)
+    if si:
+        return si
     if name not in impl_groups:
         if scols and len(scols[0][1]) > 0:
             return f"group {name} missing, Spec has {len(scols[0][1])} rows"
